@@ -21,6 +21,9 @@ EXTENDS Naturals, Integers, Sequences, FiniteSets, TLC, Json
 
 CONSTANTS Keys,        \* key name -> [sort, disp]
           Rank,        \* string -> Nat  (collation rank; equal strings have equal rank)
+          Tie,         \* display string -> Nat: the order of the display forms AS WRITTEN (markup included), distinct for distinct forms
+          TotalOrder,  \* TRUE: entries whose sort and display text collate equal are ordered by the written form (repaired);
+                       \* FALSE: they compare as "neither is less" and keep document order (as built, F41)
           Initial,     \* sort string -> heading title
           Paths,       \* set of paths entries may use
           MaxEntries,
@@ -50,8 +53,11 @@ CmpFrom(a, b, i) ==
     ELSE IF i > Len(b.path) THEN 1
     ELSE LET ka == LevelKey(a, i)
              kb == LevelKey(b, i)
+             ta == Tie[Keys[a.path[i]].disp]
+             tb == Tie[Keys[b.path[i]].disp]
          IN IF ka[1] < kb[1] \/ (ka[1] = kb[1] /\ ka[2] < kb[2]) THEN 0 - 1
-            ELSE IF ka = kb THEN CmpFrom(a, b, i + 1) ELSE 1
+            ELSE IF ka = kb THEN (IF TotalOrder /\ ta < tb THEN 0 - 1 ELSE IF TotalOrder /\ ta > tb THEN 1 ELSE CmpFrom(a, b, i + 1))
+            ELSE 1
 Lt(a, b) == CmpFrom(a, b, 1) = 0 - 1
 
 (* stable insertion sort, as sorted() *)
